@@ -7,18 +7,19 @@ CONSTANTS
   PrintTypes = {"b", "y", "n", "q", "i", "u", "x", "t", "l", "f", "d", "e"}
   IntFormats <- IntFormatsGT
   FltFormats <- FltFormatsGT
-  Lefts = {1, 2, 4, 6, 12, 21, 24, 200}
-  FmtAlphabet = {32, 43, 102, 101, 48, 50, 53, 54, 46, 120}
+  Lefts = {2, 6, 21, 200}
+  FltLefts = {2, 12, 24, 200}
+  FmtAlphabet = {32, 43, 102, 101, 48, 50, 53, 54, 46}
   FmtLen = 4
   DestAlphabet = {32, 58, 48, 50, 53, 54, 45, 120}
   DestLen = 4
   DestSeps = {0, 58}
-  DestMax = {2, 7}
-  RDsts = {"b", "y", "n", "i", "x", "t", "l", "f", "d"}
-  RBases = {0, 16}
+  DestMax = {7}
+  RDsts = {"b", "y", "i", "x", "t", "f", "d"}
+  RBases = {0}
   RAlphabet = {32, 45, 48, 49, 57, 102}
   RLen = 3
-  VecTypes = {"c", "b", "y", "i", "x", "t", "f", "d", "e", "l"}
+  VecTypes = {"c", "b", "y", "i", "x", "f", "d", "l"}
   VecLen = 2
   Ks = {7, 8, 15, 16, 31, 32, 63, 64}
   FltDesign = FALSE
